@@ -133,7 +133,7 @@ func inputClass(frame []byte) string {
 // C07: nothing crashes or hangs framing, decoding or display.
 func C07(r *ev.Run) {
 	thorough := r.Tier == "thorough"
-	r.Rule = "(a) all strings up to length 6/7 over the C01 alphabets and all sequences of <=2/3 menu segments; (b) for each of the 16 decodable types x every payload length 1..1023 (quick: 1..64 and every 7th after) x 14 deterministic payload patterns (zeros, ones, two alternating patterns, masks announcing 1x1, 2x2, 8x8, 64x1, 1x32, 9x8 (>64) and 64x32 cells, illegal timestamps, all-invalid markers, counter bytes): CRC-valid frame through HandleMessages' loop, GetMessage, Analyse, String twice, Copy+String at both log levels and the four decoders directly; (c) every well-formed message of a C04/C05 selection truncated at every payload byte and re-framed with a valid CRC; (d) every type 0..4095 with payload lengths {1,2,3,4,6,7,21,22,23}; (e) every ordered pair and triple from a 26-frame menu (MSM4/MSM7 of four constellations with early and late timestamps so that sequences cross week roll-overs, illegal timestamps, a message with cells, a short MSM, SBAS, 1005, text, an unknown type) through ONE handler at both log levels, every message decoded and displayed and all of them displayed again at the end. Oracle: every call returns (no panic, bounded framing loop, 60 s stall watchdog). Non-trivial = CRC-valid frames of a decodable type; distinct = distinct frames"
+	r.Rule = "(a) all strings up to length 6/7 over the C01 alphabets and all sequences of <=2/3 menu segments; (b) for each of the 16 decodable types x every payload length 1..1023 (quick: 1..64 and every 7th after) x 14 deterministic payload patterns (zeros, ones, two alternating patterns, masks announcing 1x1, 2x2, 8x8, 64x1, 1x32, 9x8 (>64) and 64x32 cells, illegal timestamps, all-invalid markers, counter bytes): CRC-valid frame through HandleMessages' loop, GetMessage, Analyse, String twice, Copy+String at both log levels and the four decoders directly; (c) every well-formed message of a C04/C05 selection truncated at every payload byte and re-framed with a valid CRC; (f) for each of the 14 MSM types, complete messages (2 satellites, 3 cells) in which a satellite carries each subset of {range invalid, rate invalid} and a cell each subset of {range delta, phase delta, rate delta invalid}, in one satellite/cell and in all; (d) every type 0..4095 with payload lengths {1,2,3,4,6,7,21,22,23}; (e) every ordered pair and triple from a 26-frame menu (MSM4/MSM7 of four constellations with early and late timestamps so that sequences cross week roll-overs, illegal timestamps, a message with cells, a short MSM, SBAS, 1005, text, an unknown type) through ONE handler at both log levels, every message decoded and displayed and all of them displayed again at the end. Oracle: every call returns (no panic, bounded framing loop, 60 s stall watchdog). Non-trivial = CRC-valid frames of a decodable type; distinct = distinct frames"
 	r.Assumptions = []string{"'bounded time' is enforced by an iteration bound on the framing loop plus a stall watchdog; a hang is reported only if it reproduces"}
 	var cur atomic.Value
 	var progress int64
@@ -305,6 +305,56 @@ func C07(r *ev.Run) {
 		}
 		r.Count(n, 0, n*12, n)
 	})
+	// (f) complete, decodable MSM messages whose satellites and cells carry every
+	// combination of the reserved 'invalid' values (decoders and display treat these
+	// specially, and some combinations only meet in the display code)
+	var marked [][]byte
+	for _, t := range []int{1074, 1084, 1094, 1104, 1114, 1124, 1134, 1077, 1087, 1097, 1107, 1117, 1127, 1137} {
+		m7 := ref.IsMSM7(t)
+		rd, pd := int64(-(1 << 14)), int64(-(1 << 21))
+		if m7 {
+			rd, pd = -(1 << 19), -(1 << 23)
+		}
+		for satc := 0; satc < 4; satc++ {
+			for sigc := 0; sigc < 8; sigc++ {
+				for _, all := range []bool{false, true} {
+					sat := ref.MSMSat{Whole: 77, Ext: 3, Frac: 500, Rate: -100}
+					if satc&1 != 0 {
+						sat.Whole = 255
+					}
+					if satc&2 != 0 {
+						sat.Rate = -(1 << 13)
+					}
+					sig := ref.MSMSig{RangeDelta: 9, PhaseDelta: -9, Lock: 3, CNR: 40, RateDelta: 5}
+					if sigc&1 != 0 {
+						sig.RangeDelta = rd
+					}
+					if sigc&2 != 0 {
+						sig.PhaseDelta = pd
+					}
+					if sigc&4 != 0 {
+						sig.RateDelta = -(1 << 14)
+					}
+					plainSat := ref.MSMSat{Whole: 80, Ext: 1, Frac: 1, Rate: 7}
+					plainSig := ref.MSMSig{RangeDelta: 1, PhaseDelta: 2, Lock: 1, CNR: 30, RateDelta: 3}
+					sats := []ref.MSMSat{sat, plainSat}
+					sigs := []ref.MSMSig{sig, plainSig, plainSig}
+					if all {
+						sats = []ref.MSMSat{sat, sat}
+						sigs = []ref.MSMSig{sig, sig, sig}
+					}
+					h := &ref.MSMHeader{Type: t, Station: 3, Timestamp: 1000, SatMask: 0x5 << 60, SigMask: 0x3 << 29, CellMask: []bool{true, false, true, true}}
+					marked = append(marked, ref.MSMFrame(h, sats, sigs, 0))
+				}
+			}
+		}
+	}
+	parallelFor(len(marked), func(i int) {
+		try(marked[i])
+		r.Distinct(string(marked[i]))
+		r.Count(1, 1, 12, 1)
+	})
+	r.Extra["reserved_value_frames"] = len(marked)
 	// (d) every type, short payloads
 	parallelFor(4096, func(t int) {
 		var n int64
